@@ -98,7 +98,8 @@ func RunBoundary(p *BProg) (evs []Ev) {
 	select {
 	case out := <-done:
 		evs = append(evs, out...)
-	case <-time.After(20 * time.Second):
+	case <-time.After(Watchdog(20 * time.Second)):
+		NoteHang()
 		evs = append(evs, Ev{"e": "HANG"})
 	}
 	return evs
